@@ -315,6 +315,24 @@ func (a *Adversary) mixedProof(h, v uint64, x *fakes.Block) *ProofSpec {
 	return &q
 }
 
+// liftedProof: a certificate for block x in which the PREPREPARE reference is signed by a Byzantine ex-leader and the PREPARE
+// signatures are genuine signatures of correct members - given for ANOTHER block in that view (bytes the receivers have verified before).
+func (a *Adversary) liftedProof(h, v uint64, x *fakes.Block) *ProofSpec {
+	p, _ := a.bestProof(h, v, 0)
+	if p == nil {
+		return nil
+	}
+	leaderIdx := a.w.LeaderIdx(h, p.PP.V)
+	if !a.owns(leaderIdx) {
+		return nil
+	}
+	q := *p
+	q.PP = a.ref(TPP, h, p.PP.V, x.Hash())
+	q.PPSender = a.signedRef(leaderIdx, q.PP)
+	q.P = a.ref(TP, h, p.PP.V, x.Hash())
+	return &q
+}
+
 // viewShiftedProof: genuine PREPARE signatures for block b given in view pv, under a PREPREPARE reference for the SAME block
 // that claims a later view w < v led by the adversary: the proof would outrank genuinely higher ones.
 func (a *Adversary) viewShiftedProof(h, v uint64) (*ProofSpec, *fakes.Block) {
@@ -499,6 +517,21 @@ func (a *Adversary) Do(s *ByzSpec) {
 				}
 			}
 			a.inject("rewrap", sp, s.To)
+		case 4: // a genuine signature lifted onto other content: sender and signature bytes of an observed PP/P/C stay, the hash (or view) changes
+			sp := SpecOf(src.Raw)
+			if sp == nil || sp.Union > UC {
+				return
+			}
+			if par(s, 3)%3 == 0 {
+				sp.Ref.V++
+			} else {
+				blk := a.block(src.Meta.H, par(s, 2))
+				sp.Ref.Hash = blk.Hash()
+				if sp.Union == UPP {
+					sp.Block = blk
+				}
+			}
+			a.inject("lifted-signature", sp, s.To)
 		case 3: // tamper with a genuine NEW_VIEW: header, votes and leader signature untouched, the embedded proposal and the block replaced
 			var nvs []*SentMsg
 			for _, o := range w.Seen {
@@ -576,7 +609,12 @@ func (a *Adversary) newView(s *ByzSpec) {
 	}
 	var ownProof *ProofSpec
 	var ownBlock *fakes.Block
-	switch par(s, 1) % 6 {
+	switch par(s, 1) % 7 {
+	case 6: // both references name another block; the PREPARE signatures are genuine ones lifted from the block really prepared
+		ownBlock = a.block(h, par(s, 2))
+		if ownProof = a.liftedProof(h, v, ownBlock); ownProof == nil {
+			ownBlock = nil
+		}
 	case 5: // a lower genuine certificate dressed up as a higher view
 		ownProof, ownBlock = a.viewShiftedProof(h, v)
 	case 1:
@@ -680,5 +718,5 @@ func (a *Adversary) newView(s *ByzSpec) {
 	spec := &MsgSpec{Union: UNV, NVType: TNV, NVInst: uint64(Instance) + a.instOff, NVH: h, NVV: v, Votes: votes, PPRef: &ppr, PPSend: &pps, Block: blk}
 	spec.Sender = SigSpec{ID: w.IDs[s.As], Sig: a.sign(s.As, h, spec.NVHeaderRaw())}
 	a.Proposals = append(a.Proposals, AdvProposal{h, ppv, hash, blk})
-	a.inject(fmt.Sprintf("nv:votes%d:proof%d:pp%d", mode, par(s, 1)%6, par(s, 3)%4), spec, s.To)
+	a.inject(fmt.Sprintf("nv:votes%d:proof%d:pp%d", mode, par(s, 1)%7, par(s, 3)%4), spec, s.To)
 }
